@@ -42,3 +42,21 @@ func Interior() {
 		0,
 	}
 }
+
+// InstallFromHelper: a @testonly call as the argument of a @testonly method call.
+func InstallFromHelper(t *d.T) {
+	t.Install(d.Helper())
+	t.Install(
+		d.Helper())
+}
+
+// wideSignature: reported type uses on interior lines of a signature broken over several lines.
+func wideSignature(
+	m d.Mock,
+	o *d.Only,
+	n int,
+) (
+	r d.Only,
+) {
+	return r
+}
